@@ -1307,6 +1307,261 @@ def part_recordings(ctx, objdir):
                               r_replay_obj(sc, r), True)
 
 
+
+# ---------------------------------------------------------------- P: PLT entries of real ELF files
+# Executables built -no-pie / -pie, with and without address-taken library functions (canonical PLT
+# entries: st_value != 0 in an undefined dynsym), with and without .plt.sec.  Ground truth: objdump's
+# name@plt labels and readelf's program/section headers.  Judged: the table load_elf_dynsymtab builds
+# (ADJ_OFFSET as record/analysis use it, and the run-time form), the module table record writes and
+# the reloaded .sym file, and the names replay shows for calls through every PLT slot.
+P_POOL = [("strcmp", 'strcmp(argv[0], "b")'), ("strlen", "strlen(argv[0])"), ("atoi", 'atoi("3")'), ("getpid", "getpid()"),
+          ("puts", 'puts("x")'), ("toupper", "toupper('a')"), ("strchr", "(long)strchr(argv[0], 0)"), ("abs", "abs(argc)"),
+          ("labs", "labs(argc)"), ("atol", 'atol("7")'), ("getppid", "getppid()"), ("tolower", "tolower('A')")]
+P_SRC = r"""
+#include <stdio.h>
+#include <stdlib.h>
+#include <string.h>
+#include <unistd.h>
+#include <ctype.h>
+volatile long sink;
+int c10p_user(int x) { return x + 1; }
+int main(int argc, char **argv)
+{
+%s
+	sink += c10p_user(argc);
+	return 0;
+}
+"""
+
+
+def p_build(w, name, funcs, taken, pie, ibt):
+    body = []
+    for f, call in funcs:
+        if f in taken:
+            body.append("\t{ volatile void *p = (void *)%s; sink += (p != 0); }" % f)
+    for f, call in funcs:
+        body.append("\tsink += %s;" % call)
+    open(os.path.join(w, name + ".c"), "w").write(P_SRC % "\n".join(body))
+    fl = ["-pg", "-O0", "-fno-builtin"] + (["-fPIE", "-pie"] if pie else ["-fno-pie", "-no-pie"])
+    fl += ["-fcf-protection=full"] if ibt else ["-fcf-protection=none"]
+    sh(["gcc"] + fl + ["-o", name, name + ".c"], cwd=w, check=True)
+    return os.path.join(w, name)
+
+
+def p_elf_facts(path):
+    """(vaddr0, plt, pltsec|None, rels[(name, value, shndx)], truth[(name, addr)], (plt_lo, plt_hi))"""
+    import re
+    _, out, _ = sh(["readelf", "-lW", path], check=True)
+    vaddr0 = int([l for l in out.splitlines() if l.strip().startswith("LOAD")][0].split()[2], 16)
+    _, out, _ = sh(["readelf", "-SW", path], check=True)
+    secs = {}
+    for l in out.splitlines():
+        m = re.search(r"\]\s+(\.\S+)\s+\S+\s+([0-9a-f]{16})\s+[0-9a-f]+\s+([0-9a-f]+)", l)
+        if m:
+            secs[m.group(1)] = (int(m.group(2), 16), int(m.group(3), 16))
+    _, out, _ = sh(["readelf", "--dyn-syms", "-W", path], check=True)
+    dyn = {}
+    for l in out.splitlines():
+        k = l.split()
+        if len(k) >= 7 and k[0].endswith(":") and k[0][:-1].isdigit():
+            nm = k[7].split("@")[0] if len(k) > 7 else ""
+            dyn[int(k[0][:-1])] = (nm, int(k[1], 16), 0 if k[6] == "UND" else (int(k[6]) if k[6].isdigit() else 0xfff1))
+    _, out, _ = sh(["readelf", "-rW", path], check=True)
+    rels, on = [], False
+    for l in out.splitlines():
+        if l.startswith("Relocation section"):
+            on = "'.rela.plt'" in l
+            continue
+        k = l.split()
+        if on and len(k) >= 3 and len(k[0]) == 16 and k[0] != "Offset":
+            idx = int(k[1], 16) >> 32
+            rels.append(dyn.get(idx, ("", 0, 0)) if idx else ("", 0, 0))
+    _, out, _ = sh(["objdump", "-d", "-j", ".plt", "-j", ".plt.sec", "--no-show-raw-insn", path], check=True)
+    truth, sec = {}, None
+    for l in out.splitlines():
+        if l.startswith("Disassembly of section"):
+            sec = l.split()[-1].rstrip(":")
+        m = re.match(r"^([0-9a-f]+) <([^@>+]+)@plt>:", l)
+        if m and (sec == ".plt.sec" or ".plt.sec" not in secs):
+            truth[m.group(2)] = int(m.group(1), 16)
+    lo = min(a for n, (a, sz) in secs.items() if n in (".plt", ".plt.sec"))
+    hi = max(a + sz for n, (a, sz) in secs.items() if n in (".plt", ".plt.sec"))
+    return {"vaddr0": vaddr0, "plt": secs[".plt"][0], "pltsec": secs[".plt.sec"][0] if ".plt.sec" in secs else None,
+            "rels": rels, "truth": sorted(truth.items(), key=lambda x: x[1]), "range": (lo, hi)}
+
+
+def celfplt(f):
+    return "mkElfPlt %d %d %s [%s]" % (f["vaddr0"], f["plt"], copt(f["pltsec"]),
+                                      "; ".join("mkRel %s %d %d" % (cstr(n), v, sx) for n, v, sx in f["rels"]))
+
+
+def ctruth(f):
+    return "[" + "; ".join("(%s, %d)" % (cstr(n), a) for n, a in f["truth"]) + "]"
+
+
+def btab(tab):
+    return [(a, sz, t, n) for a, sz, t, n in tab]
+
+
+P_EVALS = [
+    # model of load_elf_dynsymtab vs the implementation: ADJ_OFFSET form and run-time form
+    ("madj", "bad_indices (fun c => match c with (e, tr, base, tadj, trun, tmod, tre) => tab_eqb (load_elf_dynsymtab true 0 e) tadj end) pc 0"),
+    ("mrun", "bad_indices (fun c => match c with (e, tr, base, tadj, trun, tmod, tre) => tab_eqb (load_elf_dynsymtab false base e) trun end) pc 0"),
+    # property: every PLT entry at (real address - module base) in the loaded table, in the module table that
+    # record writes and in the reloaded .sym file
+    ("vadj", "bad_indices (fun c => match c with (e, tr, base, tadj, trun, tmod, tre) => ok_plt_table (ep_vaddr0 e) tr tadj end) pc 0"),
+    ("vrun", "bad_indices (fun c => match c with (e, tr, base, tadj, trun, tmod, tre) => ok_plt_table (- base) tr trun end) pc 0"),
+    ("vmod", "bad_indices (fun c => match c with (e, tr, base, tadj, trun, tmod, tre) => ok_plt_table (ep_vaddr0 e) tr tmod end) pc 0"),
+    ("vre", "bad_indices (fun c => match c with (e, tr, base, tadj, trun, tmod, tre) => ok_plt_table (ep_vaddr0 e) tr tre && tab_eqb tmod tre end) pc 0"),
+]
+
+
+def part_plt(ctx, h, objdir):
+    rng = ctx.rng
+    w = os.path.join(ctx.scratch, "plt")
+    os.makedirs(w, exist_ok=True)
+    uft = os.path.join(objdir, "uftrace")
+    variants = [("np_canon", False, 1, False), ("np_plain", False, 0, False), ("pie_taken", True, 1, False), ("np_canon_ibt", False, 2, True)]
+    for k in range(ctx.n(2, 14)):
+        variants.append(("r%d" % k, rng.random() < 0.3, rng.choice([0, 1, 1, 2, 3]), rng.random() < 0.3))
+    cases, recs_todo = [], []
+    for name, pie, ntaken, ibt in variants:
+        funcs = rng.sample(P_POOL, rng.randrange(4, 8))
+        taken = set(f for f, _ in rng.sample(funcs, min(ntaken, len(funcs))))
+        exe = p_build(w, name, funcs, taken, pie, ibt)
+        f = p_elf_facts(exe)
+        base = 0 if not pie else rng.choice([0x555555554000, 0x5555deadb000])
+        symf = os.path.join(w, name + ".sym")
+        if os.path.exists(symf):
+            os.unlink(symf)
+        out = h.run(["ELFDYN %s 1 0" % exe, "ELFDYN %s 0 %d" % (exe, base), "ELFMOD %s" % exe,
+                     "SAVESYM %s %s -" % (symf, hx(exe)), "LOADSYM %s" % symf])
+        tadj, out = parse_tab(out)
+        trun, out = parse_tab(out)
+        tmod, out = parse_tab(out)
+        tre, out = parse_tab(out[1:])
+        cases.append((name, f, base, tadj, trun, tmod, tre, sorted(taken), pie, ibt))
+        canon = [n for n, v, sx in f["rels"] if v and sx == 0]
+        pos = [i for i, (n, v, sx) in enumerate(f["rels"]) if v and sx == 0]
+        tags = ["P:pie" if pie else "P:non-pie", "P:plt.sec" if f["pltsec"] is not None else "P:plt",
+                "P:canonical=%d" % min(len(canon), 3)]
+        if pos:
+            tags.append("P:canonical-first" if pos[0] == 0 else ("P:canonical-last" if pos[-1] == len(f["rels"]) - 1 else "P:canonical-middle"))
+        ctx.case(key=("P", name, tuple(f["rels"]), f["vaddr0"], base), nontrivial=len(f["rels"]) >= 2, tags=tags, size=len(f["rels"]),
+                 sample={"part": "P", "exe": name, "vaddr0": "%x" % f["vaddr0"], "canonical": canon,
+                         "rela.plt": [r[0] for r in f["rels"]], "table": [("%x" % a, n.decode()) for a, _, _, n in tadj][:6]}
+                 if name == "np_canon" else None)
+        if name in ("np_canon", "pie_taken", "np_canon_ibt") or ctx.thorough():
+            recs_todo.append((name, exe, f, funcs, pie))
+    defs = "Definition pc : list (elfplt * list (str * Z) * Z * symtab * symtab * symtab * symtab) := [\n%s\n].\n" % ";\n".join(
+        "(%s, %s, %d, %s, %s, %s, %s)" % (celfplt(c[1]), ctruth(c[1]), c[2], ctab(c[3]), ctab(c[4]), ctab(c[5]), ctab(c[6])) for c in cases)
+    res = coq.run_cases(ctx, "cases_p", PRE, defs, P_EVALS)
+    if res is not None:
+        r = {k: coq.parse_nat_list(v) for k, v in res.items()}
+        bad = sorted(set(r["vadj"] + r["vrun"] + r["vmod"] + r["vre"]))
+        for i in bad[:2]:
+            c = cases[i]
+            where = [k for k in ("vadj", "vrun", "vmod", "vre") if i in r[k]]
+            ctx.violation("PLT symbols of an ELF file are not at (PLT entry address - module base): "
+                          + ", ".join({"vadj": "table loaded with ADJ_OFFSET", "vrun": "run-time table", "vmod": "module table written by record",
+                                       "vre": "reloaded .sym file"}[k] for k in where),
+                          p_replay_obj(c), True)
+        if (r["madj"] or r["mrun"]) and not bad:
+            c = cases[(r["madj"] or r["mrun"])[0]]
+            ctx.violation("model and utils/symbol.c load_elf_dynsymtab disagree (%d files)" % len(set(r["madj"] + r["mrun"])),
+                          p_replay_obj(c), False)
+    plt_noplt_witness(ctx, objdir, w)
+    # recordings: every call through a PLT slot is shown under the slot's name
+    for name, exe, f, funcs, pie in recs_todo:
+        d = os.path.join(w, "data-" + name)
+        rc, out, err = sh(["timeout", "40", uft, "record", "--no-pager", "--no-event", "--libmcount-path=" + objdir, "-d", d, exe],
+                          timeout=60, cwd=w)
+        if rc == 124 or not os.path.exists(os.path.join(d, "task.txt")):
+            ctx.broken("plt(%s): uftrace record failed (rc=%d): %s" % (name, rc, (out + err)[-300:]))
+            continue
+        rc, rout, rerr = datadir.uftrace(objdir, "replay", d, ["-f", "tid,addr,time,module", "--demangle=no"])
+        recs = parse_replay_fields(rout)
+        base = 0
+        if pie:
+            for fn in os.listdir(d):
+                if fn.endswith(".map"):
+                    for l in open(os.path.join(d, fn)):
+                        if l.rstrip().split()[-1] == exe or (len(l.split()) > 5 and l.split()[5] == exe):
+                            base = int(l.split("-")[0], 16) - f["vaddr0"]
+                            break
+        lo, hi = f["range"]
+        by_addr = {a: n for n, a in f["truth"]}
+        wrong, seen = [], set()
+        for tid, addr, t, mod, nm in recs:
+            if lo <= addr - base < hi:
+                want = by_addr.get(addr - base)
+                seen.add(want)
+                if want is not None and nm != want:
+                    wrong.append(["%x" % addr, nm, want])
+            elif nm.startswith("<") and nm.endswith(">"):
+                wrong.append(["%x" % addr, nm, "(a name)"])
+        called = set(fn_ for fn_, _ in funcs) & set(dict(f["truth"]))      # a PIE reaches address-taken functions through .plt.got
+        if not called <= seen:
+            ctx.broken("plt(%s): no record through the PLT slots of %s" % (name, sorted(called - seen)), rout[-1200:])
+        symtab_rec, _ = parse_tab(h.run(["LOADSYM %s" % os.path.join(d, name + ".sym")]))
+        plt_bad = [("%x" % a, n.decode()) for a, sz, t, n in symtab_rec
+                   if t == "P" and n.decode() in dict(f["truth"]) and a != dict(f["truth"])[n.decode()] - f["vaddr0"]]
+        ctx.case(key=("P", "record", name), tags=["P:record+replay", "P:rec-pie" if pie else "P:rec-non-pie"], size=len(recs))
+        if wrong or plt_bad:
+            ctx.violation("calls through PLT entries are not shown under the function's name (recording of %s executable%s)"
+                          % ("a PIE" if pie else "a non-PIE", "; PLT entries in the written .sym file are not module-relative" if plt_bad else ""),
+                          {"part": "P", "exe": name, "pie": pie, "source": open(exe + ".c").read(), "wrong_records": wrong[:10],
+                           "sym_file_plt_entries_wrong": plt_bad[:10], "objdump_plt": [[n, "%x" % a] for n, a in f["truth"]],
+                           "replay": rout[-2500:]}, True)
+
+
+P_NOPLT_SRC = r"""
+#include <stdlib.h>
+#include <string.h>
+#include <unistd.h>
+volatile long sink;
+int c10p_user(int x) { return x + 1; }
+int main(int argc, char **argv)
+{ sink += atoi("3"); sink += strlen(argv[0]); sink += getpid(); sink += c10p_user(argc); return 0; }
+"""
+
+
+def plt_noplt_witness(ctx, objdir, w):
+    """dedicated witness of a listed defect: a non-PIE built with -fno-plt (calls through GOT, GLOB_DAT relocations)"""
+    uft = os.path.join(objdir, "uftrace")
+    open(os.path.join(w, "noplt.c"), "w").write(P_NOPLT_SRC)
+    sh(["gcc", "-pg", "-O0", "-fno-builtin", "-fno-plt", "-fno-pie", "-no-pie", "-o", "noplt", "noplt.c"], cwd=w, check=True)
+    d = os.path.join(w, "data-noplt")
+    rc, out, err = sh(["timeout", "40", uft, "record", "--no-pager", "--no-event", "--libmcount-path=" + objdir, "-d", d, "./noplt"],
+                      timeout=60, cwd=w)
+    if rc == 124 or not os.path.exists(os.path.join(d, "task.txt")):
+        ctx.broken("plt(noplt): uftrace record failed (rc=%d): %s" % (rc, (out + err)[-300:]))
+        return
+    rc, rout, rerr = datadir.uftrace(objdir, "replay", d, ["-f", "tid,addr,time,module", "--demangle=no"])
+    recs = parse_replay_fields(rout)
+    names = [r[4] for r in recs]
+    raw = [n for n in names if n.startswith("<")]
+    ctx.case(key=("P", "noplt"), tags=["P:no-plt-non-pie"], size=len(recs))
+    if "main" not in names or "c10p_user" not in names:
+        ctx.violation("recording of a non-PIE -fno-plt executable: the executable's own functions are not resolved",
+                      {"part": "P", "exe": "noplt", "replay": rout[-1500:]}, True)
+        return
+    resolved = [n for n in ("atoi", "strlen", "getpid") if n in names]
+    ctx.known_finding("noplt-nonpie", "calls through the GOT of a non-PIE -fno-plt executable are shown as raw addresses",
+                      still_fails=bool(raw), replay={"part": "P", "exe": "noplt", "source": P_NOPLT_SRC, "raw": raw, "resolved": resolved,
+                                                     "replay": rout[-1500:]})
+    if not raw and len(resolved) != 3:
+        ctx.broken("plt(noplt): witness did not run as designed (no raw address, but %s resolved)" % resolved, rout[-1200:])
+
+
+def p_replay_obj(c):
+    name, f, base, tadj, trun, tmod, tre, taken, pie, ibt = c
+    j = lambda t: [["%x" % a, sz, ty, n.decode("latin1")] for a, sz, ty, n in t if ty == "P"]
+    return {"part": "P", "exe": name, "pie": pie, "ibt": ibt, "address_taken": taken, "vaddr0": "%x" % f["vaddr0"],
+            "rela_plt": [[n, "%x" % v, sx] for n, v, sx in f["rels"]], "objdump_plt": [[n, "%x" % a] for n, a in f["truth"]],
+            "loaded_adj_offset": j(tadj), "loaded_runtime(base=%x)" % base: j(trun), "module_table": j(tmod), "reloaded_sym": j(tre)}
+
+
 # ---------------------------------------------------------------- entry points
 def meta(ctx):
     ctx.rule = ("one case = one table with its probe set (L), one symbol file (S), one map file (M), one data directory with "
@@ -1347,7 +1602,8 @@ def run(ctx):
     for name, f in (("K kernels", lambda: part_kernels(ctx, h)), ("L lookups", lambda: part_lookup(ctx, h)),
                     ("S symbol files", lambda: part_symfiles(ctx, h)), ("M map files", lambda: part_maps(ctx, h, objdir)),
                     ("D data directories", lambda: part_datadirs(ctx, h)), ("E end to end", lambda: part_e2e(ctx, objdir)),
-                    ("R real recordings with static initialisers", lambda: part_recordings(ctx, objdir))):
+                    ("R real recordings with static initialisers", lambda: part_recordings(ctx, objdir)),
+                    ("P PLT entries of ELF files", lambda: part_plt(ctx, h, objdir))):
         n0 = ctx.evaluations
         f()
         ctx.log("part %s: %d cases" % (name, ctx.evaluations - n0))
@@ -1390,5 +1646,7 @@ def replay(ctx, obj):
             part_e2e(ctx, objdir)
         elif part == "R":
             part_recordings(ctx, objdir)
+        elif part == "P":
+            part_plt(ctx, h, objdir)
         else:
             part_kernels(ctx, h)
